@@ -99,6 +99,7 @@ func Load(dir string, overlay map[string][]byte, patterns []string) (*Program, e
 	addSymStrings(P)
 	addBLSModel(P)
 	addWalletModel(P)
+	addGRPCModel(P)
 	return P, nil
 }
 
